@@ -434,6 +434,11 @@ impl Check for C13 {
         }
     }
     fn post(&mut self, ctx: &Ctx, merged: &mut Stats) {
+        if ctx.flavour == Flavour::Rel {
+            let mctx = Ctx { seed: ctx.seed, tier: ctx.tier, flavour: Flavour::Miri };
+            let n = self.fams(&mctx).total();
+            crate::sup::run_valgrind_inproc("C13", ctx, n, 8, merged);
+        }
         if ctx.flavour == Flavour::Rel && ctx.tier == Tier::Thorough {
             crate::sup::run_sub_flavour("C13", ctx, Flavour::Asan, merged);
             // byte / character arithmetic of replace_range and the aliasing of `s[0] = s` under Miri
